@@ -275,9 +275,11 @@ class walk_tree(object):
         @param errh: Error handler
         @type errh: L{error_handler.err_handler}
         """
-        for (seg_node, seg_data, err_cde, err_str, seg_count, cur_line, ls_id) in self.mandatory_segs_missing:
+        for (node, seg_data, err_cde, err_str, seg_count, cur_line, ls_id) in self.mandatory_segs_missing:
             # Create errors if not also at current position
-            if seg_node.pos != cur_pos:
+            if node.pos != cur_pos:
+                # a missing loop is reported at its first segment
+                seg_node = node.get_first_node() if node.is_loop() else node
                 errh.add_seg(seg_node, seg_data, seg_count, cur_line, ls_id)
                 errh.seg_error(err_cde, err_str, None)
         self.mandatory_segs_missing = [x for x in self.mandatory_segs_missing if x[0].pos == cur_pos]
@@ -321,7 +323,8 @@ class walk_tree(object):
             fake_seg = pyx12.segment.Segment('%s' % (first_child_node.id), '~', '*', ':')
             err_str = 'Mandatory loop "%s" (%s) missing' % \
                 (loop_node.name, loop_node.id)
-            self.mandatory_segs_missing.append((first_child_node, fake_seg,
+            # queued with the loop itself: it is missing at the loop's position, not at that of its first segment
+            self.mandatory_segs_missing.append((loop_node, fake_seg,
                                                 '3', err_str, seg_count, cur_line, ls_id))
         return False
 
